@@ -87,7 +87,15 @@ def analyse(repo):
             if isinstance(st, ast.Try):
                 fin = any(isinstance(x, ast.If) and norm(x.test) == 'cache.immediate and (not cache.in_transaction)'
                           and [norm(y) for y in x.body] == ['provider.release_lock()'] for x in st.finalbody)
-    r['lockBeforeBegin'] = bool(a and b and begin and a < b and fin)
+    order = []
+    if stm is not None:
+        for node in ast.walk(stm):
+            if isinstance(node, ast.If) and norm(node.test) == 'cache.immediate' and any(norm(x) == "sql = 'BEGIN IMMEDIATE TRANSACTION'" for x in node.body):
+                for x in node.body:
+                    if norm(x) == 'cursor.execute(sql)': order.append('execute')
+                    elif norm(x) == 'cache.in_transaction = True': order.append('flag')
+    # ... and `in_transaction` becomes True only AFTER the BEGIN went through (a refused BEGIN leaves the session unlocked and not in a transaction)
+    r['lockBeforeBegin'] = bool(a and b and begin and a < b and fin and order == ['execute', 'flag'])
     rel = True
     for name in ('commit', 'rollback', 'drop'):
         f = find_func(sqlite, 'SQLiteProvider', name)
